@@ -64,6 +64,12 @@ Theorem C04_ast_elements : forall stop m b src d m1 b1 n, wf_ms m -> parse_sourc
 Proof. exact ast_elements_located. Qed.
 Print Assumptions C04_ast_elements.
 
+(* ... and every comment of the document is one whole physical line starting (after blanks) with '#', at column 1 *)
+Theorem C04_ast_comments : forall stop m b src d m1 b1 n, wf_ms m -> parse_source stop m b src = POk d m1 b1 n ->
+  Forall (fun c => exists i text, nth_error (py_lines src) i = Some text /\ comment_at (make_line text (S i)) (S i) c) (doc_comments d).
+Proof. exact ast_comments_located. Qed.
+Print Assumptions C04_ast_comments.
+
 Example C04_example :
   line_tags (make_line (s2l "  @a  @b-c #x @no"%string) 1) = TagsOk [(3, s2l "@a"%string); (7, s2l "@b-c"%string)]
   /\ table_cells (make_line (s2l "   | a |  | \| |"%string) 1) = [(6, s2l "a"%string); (11, []); (13, s2l "|"%string)].
